@@ -113,7 +113,7 @@ class Nuclide:
 
         """
 
-        return int(self.nuclide.split("-")[1].strip("mn"))
+        return int(self.nuclide.split("-")[1].strip("mnpqrx"))
 
     @property
     def state(self) -> str:
